@@ -27,6 +27,7 @@ class Script:
         self.k = 1.0 if slot == 'A' else 1.5
         self.m = None
         self.solved = False
+        self.clean = False
         self.last = None           # results recorded at the last solve
 
     def _st(self, *cs):
@@ -102,6 +103,7 @@ class Script:
 
     def cons2(self):
         import rsome as rso
+        self.clean = False
         x, f, k = self.x, self.front, self.k
         if f == 'lp':
             self._st(abs(x[0] - x[1]) <= 0.1 * k)
@@ -117,17 +119,25 @@ class Script:
             self.m.st(x[0] + x[1] >= 2.5 * k + self.z[0])
 
     def dual(self):
+        self.clean = False
         self.dual_sig = sig(self.m.do_math(primal=False))
 
     def _solve(self, which):
         s, params = self._solver(which)
-        if s is None:
+        if which == 2 and self.slot == 'B' and self.front in ('gcp', 'ro', 'dro'):
+            # the second model of a pair re-solves through the SOC approximation entry point (exact here except for gcp)
+            if params is None:
+                self.m.soc_solve(s, display=False)
+            else:
+                self.m.soc_solve(s, display=False, params=params)
+        elif s is None:
             self.m.solve(display=False)
         elif params is None:
             self.m.solve(s, display=False)
         else:
             self.m.solve(s, display=False, params=params)
         self.solved = True
+        self.clean = True
         self.last = self.read()
 
     def solve1(self):
@@ -150,6 +160,21 @@ class Script:
             if isinstance(xv, pd.Series):
                 xv = np.concatenate([np.asarray(v, dtype=float).reshape(-1) for v in xv])
         out['x'] = [float(v) for v in np.asarray(xv, dtype=float).reshape(-1)]
+        # C12: x() and x.get() agree, and an affine expression evaluates to its NumPy value at x.get()
+        def flat(v):
+            if self.front == 'dro':
+                import pandas as pd
+                if isinstance(v, pd.Series):
+                    v = np.concatenate([np.asarray(e, dtype=float).reshape(-1) for e in v])
+            return np.asarray(v, dtype=float).reshape(-1)
+        if not self.clean:
+            return out          # declared further / formulated again since the solve: expressions built now have other columns
+        xc, ec = flat(self.x()), flat((3 * self.x - 1)())
+        xg = np.asarray(out['x'])
+        if xc.shape != xg.shape or np.abs(xc - xg).max() > 1e-7 * (1 + np.abs(xg).max()):
+            out['call_mismatch'] = 'x() = %r, x.get() = %r' % (xc.tolist(), xg.tolist())
+        elif ec.shape != xg.shape or np.abs(ec - (3 * xg - 1)).max() > 1e-7 * (1 + np.abs(xg).max()):
+            out['call_mismatch'] = '(3*x - 1)() = %r at x.get() = %r' % (ec.tolist(), xg.tolist())
         return out
 
     def final(self):
